@@ -970,3 +970,40 @@ Proof.
     unfold visible. apply (visible_keys_nodup schema cfg rec schema (r_fields rec) Hs).
   - unfold env_pairs. rewrite map_map. cbn [fst]. rewrite map_id. exact He.
 Qed.
+
+(* ------------------------------------------------------------------ *)
+(* which chains VerifyRewriterConfigs accepts                          *)
+
+Definition is_last (rc : rewriter_cfg) : Prop := rc = RcCopy \/ rc = RcUnescape.
+
+Theorem accepted_chains_lemma : forall schema ch,
+  verify_rewriters schema ch = true <->
+  ch = [] \/ exists fs last, ch = map RcInline fs ++ [last] /\ is_last last /\
+                             Forall (fun f => f <> [] /\ In f schema) fs.
+Proof.
+  intros schema ch. split.
+  - induction ch as [|rc rest IH]; intros V; [left; reflexivity|]. right.
+    cbn [verify_rewriters] in V. apply andb_true_iff in V. destruct V as [V1 V2].
+    destruct rc as [| |f]; cbn [verify_rewriter] in V1.
+    + destruct rest; [|discriminate]. exists [], RcCopy. repeat split; [left; reflexivity | constructor].
+    + destruct rest; [|discriminate]. exists [], RcUnescape. repeat split; [right; reflexivity | constructor].
+    + apply andb_true_iff in V1. destruct V1 as [V1 Vf]. apply andb_true_iff in V1. destruct V1 as [Vn Ve].
+      destruct (IH V2) as [->|(fs & last & -> & Hl & Hfs)]; [discriminate|].
+      exists (f :: fs), last. split; [reflexivity|]. split; [exact Hl|]. constructor; [|exact Hfs].
+      split; [destruct f; [discriminate|discriminate] | apply has_name_In; exact Vf].
+  - intros [->|(fs & last & -> & Hl & Hfs)]; [reflexivity|].
+    induction Hfs as [|f fs [Hne Hin] Hfs IH].
+    + destruct Hl as [->| ->]; reflexivity.
+    + cbn [map app verify_rewriters verify_rewriter]. rewrite IH.
+      apply has_name_In in Hin. rewrite Hin.
+      destruct f; [contradiction|]. destruct (map RcInline fs ++ [last]) eqn:E.
+      * destruct fs; discriminate.
+      * reflexivity.
+Qed.
+
+(* the inline rewriter, spelled out (an unfolding of [rewrite_spec], for the record) *)
+Lemma inline_spec_lemma : forall schema fields unescaped f rest value,
+  rewrite_spec schema fields unescaped (RcInline f :: rest) value
+  = if is_nil (field_value schema fields f) then rewrite_spec schema fields unescaped rest value
+    else f ++ [61] ++ field_value schema fields f ++ [32] ++ rewrite_spec schema fields unescaped rest value.
+Proof. reflexivity. Qed.
